@@ -403,11 +403,20 @@ def sec_sampling_rule(rec, patches=None):
     sec_sampling(rec, order=1, corner_safe=False, patches=patches)
 
 
+def sec_batch_order(rec, patches=None):
+    """batch loaders: the alignment task of molecule i is cut from the tomogram molecule i was registered with, whatever the order of the image ids (executed by C03's batch section)"""
+    from .c03 import sec_batch
+
+    sec_batch(rec, ids=(1, 0), patches=patches)
+    sec_batch(rec, ids=(0, 1, 0, 1), patches=patches)
+
+
 def sec_displacement_kernels(rec, patches=None):
     """the shift that is written back is the displacement the correlation landscapes stand for: landscape entry <-> lag for PCC on odd boxes (fftshift / crop index arithmetic) and
     for the padded NCC landscape on symbolic voxels (executed by C04's pcc-index and semantics sections)"""
-    from .c04 import sec_pcc_index, sec_semantics
+    from .c04 import sec_pcc_index, sec_semantics, sec_pcc_decode
 
+    sec_pcc_decode(rec, box=(5, 4, 6), axis=0, others=(0.0, 1.25), patches=patches)
     sec_pcc_index(rec, box=(5, 4, 7), axis=0, patches=patches)
     sec_pcc_index(rec, box=(5, 4, 7), axis=2, patches=patches)
     sec_semantics(rec, kind="ncc", shape=(1, 1, 3), axis=2, mhi=2, patches=patches)
@@ -416,7 +425,7 @@ def sec_displacement_kernels(rec, patches=None):
 def sections(tier):
     R = rotation.R30
     pairs = [(R[9], R[10]), (R[0], R[12]), (R[1], R[4])] if quick(tier) else [(R[i], R[(i * 7 + 3) % 30]) for i in range(30)]
-    S = [("units", "checks.c01", "sec_units", {}), ("sampling-rule", "checks.c01", "sec_sampling_rule", {}), ("displacement-kernels", "checks.c01", "sec_displacement_kernels", {})]
+    S = [("units", "checks.c01", "sec_units", {}), ("sampling-rule", "checks.c01", "sec_sampling_rule", {}), ("displacement-kernels", "checks.c01", "sec_displacement_kernels", {}), ("batch-order", "checks.c01", "sec_batch_order", {})]
     for entry in ("single", "multi", "group"):
         ps = pairs if entry == "single" else pairs[:1] if quick(tier) else pairs[:6]
         for k, pr in enumerate(ps):
